@@ -34,6 +34,8 @@ type zzWorld struct {
 	notHosted map[digest.Digest]bool // blobs the source does not hold
 }
 
+var zzWantBlobEntry bool // an index additionally lists a blob-typed entry
+
 var zzWantForeign bool // registry harness: the first layer of the first image is a foreign layer
 
 func zzBlobFile(root string, d digest.Digest) string {
@@ -89,6 +91,13 @@ func zzBuildWorld() *zzWorld {
 		idx := v1.Index{Versioned: v1.IndexSchemaVersion, MediaType: mediatype.OCI1ManifestList}
 		for i := 0; i < n; i++ {
 			idx.Manifests = append(idx.Manifests, w.image(i))
+		}
+		if zzWantBlobEntry {
+			// an index entry that is a blob (here with a layer media type)
+			x := w.put([]byte("blob-entry"), mediatype.OCI1LayerGzip, false)
+			idx.Manifests = append(idx.Manifests, x)
+			w.all = append(w.all, x.Digest)
+			w.plain[x.Digest] = true
 		}
 		b, _ := json.Marshal(idx)
 		w.top = w.put(b, mediatype.OCI1ManifestList, true)
